@@ -107,6 +107,9 @@ def play_family(rep, n_cases, n_ops, features=None, weights=None, oracle_names=(
             rep.samples.extend(o["samples"])
         for h, nt in o["hashes"]:
             hashes[h] = hashes.get(h, False) or nt
+    if stats.get("cases", 0) and stats.get("unmodelled", 0) > 0.1 * stats["cases"]:
+        rep.infra_errors.append(f"family {label}: {stats['unmodelled']} of {stats['cases']} cases fall outside the modelled fragment "
+                                "(generator and MiniPy out of step)")
     cov = rep.coverage
     cov["evaluations"] = cov.get("evaluations", 0) + stats.get("cases", 0)
     cov["programs"] = cov.get("programs", 0) + stats.get("cases", 0) - stats.get("compile_errors", 0)
